@@ -2,11 +2,22 @@ import io
 from . import ref
 
 
-def replay_history(writer, blocked, lengths, fins, readable=True, content=None):
+def replay_history(writer, blocked, lengths, fins, readable=True, content=None, seekable=True):
     from cardutil import mciipm
     f = io.BytesIO()
     if not readable:
         f.readable = lambda: False
+    if not seekable:
+        class _Forward(io.BytesIO):
+            def seekable(self):
+                return False
+
+            def seek(self, *a):
+                raise io.UnsupportedOperation('not seekable')
+
+            def tell(self):
+                raise io.UnsupportedOperation('not seekable')
+        f = _Forward()
     if writer == 'vbs':
         w = mciipm.VbsWriter(f, blocked=blocked)
         items = list(content) if content else [ref.content(n, i) for i, n in enumerate(lengths)]
@@ -20,7 +31,12 @@ def replay_history(writer, blocked, lengths, fins, readable=True, content=None):
         w.write(it)
     snap = None
     for k, fin in enumerate(fins):
-        if fin == 'close':
+        if not seekable:
+            try:
+                w.close() if fin == 'close' else w.__exit__(None, None, None)
+            except (io.UnsupportedOperation, OSError):
+                pass
+        elif fin == 'close':
             w.close()
         elif fin == 'bound-close':
             bound_close()
@@ -36,7 +52,7 @@ def replay_history(writer, blocked, lengths, fins, readable=True, content=None):
         if k == 0:
             snap = f.getvalue()
     final = f.getvalue()
-    if readable and f.tell() != 0:
+    if readable and seekable and f.tell() != 0:
         return True, 'finalised file left at offset %d, not at its start' % f.tell(), 'C11/rewind'
     if blocked:
         if len(final) % 1014 or any(final[j + 1012:j + 1014] != b'@@' for j in range(0, len(final), 1014)):
